@@ -628,11 +628,10 @@ class ComponentLevel3( ComponentLevel2 ):
 
                   # The connection may also have been made further up in the
                   # hierarchy, i.e. neither in whost nor in its parent
-                  assert not ( u_connected_in_whost and u_connected_in_parent ), "Please contact pymtl3 developers."
-
                   # We permit this loopback from parent level. Otherwise
-                  # we throw an error
-                  if not u_connected_in_parent:
+                  # we throw an error (also when the parent makes the same
+                  # connection in addition)
+                  if u_connected_in_whost or not u_connected_in_parent:
                     raise InvalidConnectionError( \
 """InPort and OutPort loopback connection is only allowed at parent level:
 
